@@ -49,7 +49,9 @@ TRUSTED = [
     "javac/java, g++ and the Python interpreter when the thorough tier runs the generated SDKs",
 ]
 RULE = ("case (text) = one invariant of a meta-model (the hand-built probe model with every comparator x "
-        "value kind and every connective, then seeded mmgen models) in one target language; "
+        "value kind, every connective and every operator pair whose relative precedence/associativity "
+        "matters; probe-precedence models with seeded random well-typed expressions of depth <= 4; then "
+        "seeded mmgen models) in one target language, compared as PARSED operator trees; "
         "non-trivial = the invariant contains a comparison or a connective; distinct by "
         "(model, description, language). case (run) = (meta-model, instance, target); non-trivial = "
         "the Python SDK reports at least one error for the instance; distinct by (model, instance, target)")
@@ -183,6 +185,7 @@ class Valuation:
         for c in lits:
             pool.update({c - 1, c, c + 1})
         self.pool = sorted(pool)
+        self.assigned: Dict[str, Any] = {}
 
     def truth(self, t) -> bool:
         k = t[0]
@@ -197,7 +200,9 @@ class Valuation:
             return {"LT": l < r, "LE": l <= r, "GT": l > r, "GE": l >= r, "EQ": l == r, "NE": l != r}[t[1]]
         if k == "bool":
             return t[1]
-        return bool(_h(self.seed, t, 2))
+        v = bool(_h(self.seed, t, 2))
+        self.assigned[json.dumps(xt.tojson(t))] = v
+        return v
 
     def number(self, t):
         k = t[0]
@@ -209,7 +214,9 @@ class Valuation:
             return self.number(t[1]) - self.number(t[2])
         if k in ("str", "enum", "bool"):
             return _h(0, t, 1000003)
-        return self.pool[_h(self.seed, t, len(self.pool))]
+        v = self.pool[_h(self.seed, t, len(self.pool))]
+        self.assigned[json.dumps(xt.tojson(t))] = v
+        return v
 
 
 def evaluate(t, seed: int, trees=None) -> bool:
@@ -254,7 +261,7 @@ def text_stream(ctx: lib.Ctx, tables: Optional[Dict[str, Any]], models, gens) ->
         if failed:
             # generation itself is the business of C02; here only note it
             ctx.count("text", 0, skipped_models=ctx.coverage["streams"].get("text", {}).get("skipped_models", 0) + 1)
-            if name == "probe":
+            if name.startswith("probe"):
                 ctx.corr_break("text", {"model": name, "targets": failed}, "probe model generates on all targets",
                                {t: (gen[t]["stderr"] or str(gen[t]["exception"]))[-600:] for t in failed})
             continue
@@ -333,8 +340,10 @@ def text_stream(ctx: lib.Ctx, tables: Optional[Dict[str, Any]], models, gens) ->
                        "source": mmg.render_source(mm)}
                 if seed is not None:
                     inp["valuation_seed"] = seed
-                    inp["python_flags"] = evaluate(a, seed, [a, b])
-                    inp["target_flags"] = evaluate(b, seed, [a, b])
+                    val = Valuation(seed, [a, b])
+                    inp["python_flags"] = val.truth(a)
+                    inp["target_flags"] = val.truth(b)
+                    inp["operand_values"] = val.assigned
                     ctx.impl_failure(f"text:{lang}:{sig}",
                                      f"the {lang} SDK flags the invariant under a different condition than the Python SDK "
                                      f"({sig}); under the valuation of the operands derived from seed {seed} python "
@@ -360,10 +369,19 @@ def streams(ctx: lib.Ctx) -> None:
 
     rng = random.Random(ctx.rng.getrandbits(64))
     models: List[Tuple[str, mmg.MetaModel]] = [("probe", xg.probe_metamodel())]
-    n_random = ctx.n(5, 14)
+    if ctx.thorough:
+        models.append(("noenum", xg.noenum_metamodel()))  # corpus: known finding no-enums-package
+    # random well-typed expressions over the probe class: every operator nested in every other,
+    # so that a missing pair of parentheses changes the parsed operator tree of some invariant
+    precedence = [(f"probe-precedence-{k}",
+                   xg.precedence_metamodel(random.Random(rng.getrandbits(64)), ctx.n(45, 60)))
+                  for k in range(ctx.n(1, 3))]
+    models.append(precedence[0])
+    n_random = ctx.n(4, 12)
     for k in range(n_random):
         prof = "small" if k % 3 else "tiny"
         models.append((f"{prof}-{k}", mmg.random_metamodel(random.Random(rng.getrandbits(64)), prof)))
+    models += precedence[1:]
     t0 = time.time()
     gens = generate(models, workers=6)
     ctx.coverage["generation_s"] = round(time.time() - t0, 1)
